@@ -377,6 +377,8 @@ def c19(run, ctx):
     fam_parse.backref_spellings(run, ctx)
     fam_parse.flags_rule(run, ctx)
     fam_parse.escape_table(run, ctx)
+    # comments / free-spacing blanks inside `(?(N) )` are trivia: the bare-test decision must not see them
+    fam_parse.conditional_rule(run, ctx)
 
 
 _c05_old = c05
